@@ -201,7 +201,30 @@ func (C19) Generate(rng *rand.Rand, tier string, runIdx uint64) simkit.Plan {
 	}
 	n := 8 + rng.IntN(40)
 	for len(p.Steps) < n {
-		switch simkit.Weighted(rng, []int{50, 32, 5, 6, 3, 4}) {
+		switch simkit.Weighted(rng, []int{50, 32, 5, 6, 3, 4, 4}) {
+		case 6:
+			// two policies (or roles) change, and one of them disappears between the list and the batch read
+			// of the round that fetches both: the round is racy, the one after it must still end equal
+			a, b := 1+rng.IntN(3), 0
+			b = a + 1 + rng.IntN(4-a)
+			if simkit.Chance(rng, 50) {
+				a, b = b, a
+			}
+			if simkit.Chance(rng, 60) {
+				p.Steps = append(p.Steps,
+					Step{Op: "acl.policy.set", ID: PolicyUUID(ids.cur("p", a)), Name: fmt.Sprintf("pol%d", a), Text: g.pick(aclRules)},
+					Step{Op: "acl.policy.set", ID: PolicyUUID(ids.cur("p", b)), Name: fmt.Sprintf("pol%d", b), Text: g.pick(aclRules)},
+					Step{Op: "fed.round", Name: "policies", M: 1, List: []string{"", "mid"}},
+					Step{Op: "acl.policy.delete", ID: PolicyUUID(ids.retire("p", a))},
+					Step{Op: "fed.round", Name: "policies", M: 2})
+			} else {
+				p.Steps = append(p.Steps,
+					Step{Op: "acl.role.set", ID: RoleUUID(ids.cur("r", a)), Name: fmt.Sprintf("role%d", a), Svc: g.pick(g.U.Services)},
+					Step{Op: "acl.role.set", ID: RoleUUID(ids.cur("r", b)), Name: fmt.Sprintf("role%d", b), Svc: g.pick(g.U.Services)},
+					Step{Op: "fed.round", Name: "roles", M: 1, List: []string{"", "mid"}},
+					Step{Op: "acl.role.delete", ID: RoleUUID(ids.retire("r", a))},
+					Step{Op: "fed.round", Name: "roles", M: 2})
+			}
 		case 0:
 			p.Steps = append(p.Steps, primaryOp())
 		case 1:
